@@ -543,7 +543,7 @@ class Job:
                  expect=(), slices=(), domain="", timeout=300, no_pointer_check=False, defines=(),
                  bound=None, replay=None, functions=(), backend="sat:minisat(default)", unwind=None,
                  cxx_defines=(), note="", canary=True, property_id=None, extra_checks=True,
-                 nondet_static=False, cover_timeout=None, count="all", stub_variant=None):
+                 nondet_static=False, cover_timeout=None, count="all", stub_variant=None, closure_file=None):
         self.__dict__.update(locals())
         del self.__dict__["self"]
 
@@ -580,6 +580,25 @@ def run_job(job, workdir):
         cmd = ["goto-cc", "-nostdinc"] + (["-I", os.path.join(STUBS, job.stub_variant)] if job.stub_variant else []) + ["-I", STUBS, "-DVERIF_CBMC"] + ["-D" + d for d in job.cxx_defines] + \
               ["-c", "slices.cpp", "-o", "slices.gb"]
         rc, out, _ = sh(cmd, workdir, 300, log)
+        # callee closure: the sliced text may have come to call a file-local helper that is not part of the job's slices (a change under test
+        # introduced it).  Where the TU carries the marker /*@CLOSURE@*/ and the job names the source file, the helper's definition is cut
+        # verbatim from that file and inserted at the marker; at most four helpers, each logged with the job's slices.
+        tries = 0
+        while rc != 0 and job.closure_file and "/*@CLOSURE@*/" in job.cxx and tries < 4:
+            m = re.search(r"(?:symbol '(\w+)' is unknown|found no match for symbol '(\w+)'|function '(\w+)' is not declared|'(\w+)' was not declared)", out)
+            name = next((g for g in (m.groups() if m else ()) if g), None)
+            if not name:
+                break
+            try:
+                helper = slice_func(job.closure_file, r'^(?:static\s+|inline\s+)*[\w:<>\*&]+(?:\s+[\w:<>\*&]+)*\s+\**&?' + re.escape(name) + r'\s*\(', "%s [file-local helper pulled in by closure]" % name)
+            except Undecided:
+                break
+            job.cxx = job.cxx.replace("/*@CLOSURE@*/", helper.text + "\n/*@CLOSURE@*/", 1)
+            job.slices = list(job.slices) + [helper]
+            with open(os.path.join(workdir, "slices.cpp"), "w") as f:
+                f.write(job.cxx)
+            rc, out, _ = sh(cmd, workdir, 300, log)
+            tries += 1
         if rc != 0:
             raise Undecided("job %s: C++ slice TU does not compile under goto-cc (rc=%d): %s" %
                             (job.name, rc, out[-1500:]))
